@@ -154,9 +154,16 @@ def _install():
 
     def pressures_are_zero_sum_least_squares(self, when):
         c = CTX.get("cur")
-        if c is None or "cols" not in c:
+        if c is None:
             return True
         pm = self.pressure_matrices[when]
+        if "cols" not in c:
+            # the assembly contract did not run in this step (e.g. a kept object was returned): judge the system the solver
+            # holds against the frame as it is NOW
+            mon.count("build:judged-held-object")
+            rows_are_young_laplace(pm, None)
+            if "cols" not in c:
+                return True
         frame = self.frames[when]
         L, rhs, cols = pm.lhs_matrix, pm.rhs_matrix, c["cols"]
         df = frame.get_pressures()
